@@ -262,6 +262,9 @@ func r20go(c *core.Ctx) {
 // pointer/map/func/chan/interface variable that is never assigned anywhere in the
 // program in a way that must dereference it.
 func r0nilglobal(c *core.Ctx, entries ...*ssa.Function) {
+	if !c.Once("r0nilglobal") {
+		return
+	}
 	const R = "R0.nilglobal"
 	c.Rule(R, "no never-initialised package-level pointer/map/func/interface variable is dereferenced on the way through the NGAP codec")
 	// all stores to globals in the whole program (including init)
